@@ -32,6 +32,7 @@ func init() {
 	register("C16", false, func(p *core.Prog, r *core.Report, tier string) {
 		tables.C16(p, r)
 		tables.ResidueClass(p, r)
+		traps.OriginLength(p, r, false)
 		globals.ShallowCache(p, r)
 	})
 	register("C02", true, func(p *core.Prog, r *core.Report, tier string) {
@@ -144,6 +145,7 @@ func init() {
 	register("C07", true, func(p *core.Prog, r *core.Report, tier string) {
 		traps.C07(p, r)
 		traps.NoDump(p, r)
+		traps.OriginLength(p, r, true)
 	})
 	register("C11", true, func(p *core.Prog, r *core.Report, tier string) {
 		effects.C11(p, r)
